@@ -241,7 +241,8 @@ def systematic_pages(bodies_for):
 def spec_size(spec):
     bodies = resolve(spec)
     raw, db = render(spec, bodies)
-    return len(raw) + 10 * len(spec["regions"]) + (5 + sum(len(v) for v in db.values()) if db else 0)
+    extra = sum((r["variant"] != "plain") + 2 * (r["place"] != "page") for r in spec["regions"]) + (spec["layout"] != "top")
+    return len(raw) + 10 * len(spec["regions"]) + (5 + sum(len(v) for v in db.values()) if db else 0) + extra
 
 
 def _copy(spec):
